@@ -49,8 +49,14 @@ def main():
     for p in props:
         work = os.path.join(SW, "work_" + tag)
         rc, o = sh("./check %s quick" % p, cwd="/verif", env={"VERIF_REPO": WT, "VERIF_WORK": work}, timeout=7200)
-        viol = [l for l in o.splitlines() if l.startswith("VIOLATION")]
-        out["checks"][p] = {"rc": rc, "violations": len(viol), "first": (viol[0] if viol else ""), "tail": o.splitlines()[-3:] if rc == 2 else []}
+        lines = o.splitlines()
+        viol = [l for l in lines if l.startswith("VIOLATION")]
+        detail = ""
+        for i, l in enumerate(lines):
+            if l.startswith("VIOLATION") and i + 1 < len(lines) and not lines[i + 1].startswith(("VIOLATION", "KNOWN")):
+                detail = lines[i + 1].strip()[:300]
+                break
+        out["checks"][p] = {"rc": rc, "violations": len(viol), "first": (viol[0] if viol else ""), "detail": detail, "tail": lines[-3:] if rc == 2 else []}
     shutil.rmtree(os.path.join(SW, "work_" + tag), ignore_errors=True)
     sh("git reset -q --hard && git clean -fdq -e target", cwd=WT)
     print(json.dumps(out))
